@@ -222,11 +222,14 @@ func init() {
 				}
 				for _, name := range SortedKeys(cfgs) {
 					files := []File{{"c.yaml", cfgs[name].YAML()}}
-					br := w.Build(files)
-					c.Distinct("nontrivial", c.ID+name)
-					c.Count("evaluations_extra")
-					if br.OK() {
-						c.Violation("scope-violation-built:"+name, "a declared-shared service reaches a contextual one ("+name+") and the container was generated: it would cache one context's instance for every context", FilesMap(files), nil)
+					// no flag makes such a container acceptable
+					for _, flags := range [][]string{nil, {"--ignore-missing-services"}, {"--ignore-missing-params"}, {"--ignore-missing-params", "--ignore-missing-services"}, {"--stub"}, {"--quiet"}, {"--quiet", "--stub", "--ignore-missing-services", "--ignore-missing-params"}} {
+						br := w.Build(files, flags...)
+						c.Distinct("nontrivial", c.ID+name+fmt.Sprint(flags))
+						c.Count("evaluations_extra")
+						if br.OK() {
+							c.Violation("scope-violation-built:"+name, fmt.Sprintf("a declared-shared service reaches a contextual one (%s) and the container was generated under flags %v: it would cache one context's instance for every context", name, flags), FilesMap(files), map[string]any{"flags": flags})
+						}
 					}
 				}
 			})
